@@ -194,6 +194,9 @@ func cutProbes(ctx *core.Ctx, f *fmts.Format, input []byte, seq []int) {
 	}
 }
 
+// oddNames are base names with a conventional meaning elsewhere or awkward bytes.
+var oddNames = []string{"-", "-", "~", "--help", "a b", "x.gz", "x.gz.y", "\u00fcn\u00ef", "con", ".hidden", "a:b", "%41"}
+
 // RunC06 is one simulated run.
 func RunC06(ctx *core.Ctx, r *core.Rng) {
 	f := core.Pick(r, fmts.All)
@@ -210,6 +213,9 @@ func RunC06(ctx *core.Ctx, r *core.Rng) {
 		sz = fmts.Medium
 	default:
 		sz = fmts.Large // 1% of quick runs, 4% of thorough runs: an execution costs up to a second
+	}
+	if ctx.Tier == "thorough" && r.Chance(0.002) {
+		sz = fmts.Huge
 	}
 	kind := "wellformed"
 	switch x := r.Intn(100); {
@@ -234,6 +240,13 @@ func RunC06(ctx *core.Ctx, r *core.Rng) {
 			n = r.Range(0, 14)
 		}
 		input = fmts.RandomBytes(r, f, n)
+	}
+	if r.Chance(0.04) { // leading junk real files carry: byte order marks, gzip magic in a plain file, NUL
+		input = append([]byte(core.Pick(r, []string{"\xef\xbb\xbf", "\xff\xfe", "\x1f\x8b", "\x1f\x8b\x08\x00", "\x00", "BZh9", "\x28\xb5\x2f\xfd"})), input...)
+		if kind == "wellformed" {
+			kind = "mutated"
+		}
+		ctx.Stats.Inc("probe/input_with_leading_magic_bytes")
 	}
 	if sz == fmts.Tiny && len(input) > 14 {
 		input = input[:14]
@@ -341,7 +354,7 @@ func RunC06(ctx *core.Ctx, r *core.Rng) {
 		if i >= len(planStyles) {
 			style = core.Pick(r, planStyles)
 		}
-		if len(input) > 50000 && (style == "one" || style == "uniform") && !(ctx.Tier == "thorough" && r.Chance(0.2)) {
+		if len(input) > 50000 && (style == "one" || style == "uniform") && !(ctx.Tier == "thorough" && r.Chance(0.2) && sz != fmts.Huge) {
 			style = "bigbuf" // hundreds of thousands of tiny reads per execution: thorough tier only, and rarely
 		}
 		runSched(genPlan(r, style, input, f.Special), true, style)
@@ -389,8 +402,17 @@ func RunC06(ctx *core.Ctx, r *core.Rng) {
 		if r.Chance(0.35) {
 			cfgs = append(cfgs, sim.FileCfg{Kind: "gz2", Level: core.Pick(r, []int{0, 1, 6, 9}), Split: r.Range(0, len(input))})
 		}
+		odd := ""
+		if r.Chance(0.12) { // file names with a conventional or awkward meaning
+			odd = core.Pick(r, oddNames)
+			ctx.Stats.Inc("probe/unusual_file_name")
+		}
 		for _, cfg := range cfgs {
 			cfg := cfg
+			cfg.Odd = odd
+			if odd == "-" && cfg.Kind != "plain" {
+				cfg.Odd = "-x" // "-" itself cannot carry the .gz suffix
+			}
 			c := &Case{Clause: "C06.file", Format: f.Name, Input: input, File: &cfg}
 			v := execC06Ref(c, ref, true)
 			ctx.Eval()
@@ -409,8 +431,11 @@ func RunC06(ctx *core.Ctx, r *core.Rng) {
 
 	// Clause 4: unopenable paths.
 	if r.Chance(0.15) {
-		for _, k := range []string{"missing", "missing-parent", "through-file"} {
+		for _, k := range []string{"missing", "missing-parent", "through-file", "missing"} {
 			cfg := sim.FileCfg{Kind: k}
+			if k == "missing" && r.Chance(0.5) {
+				cfg.Odd = core.Pick(r, oddNames) // e.g. "-": no such file, so an error, not standard input
+			}
 			c := &Case{Clause: "C06.unopenable", Format: f.Name, File: &cfg}
 			v := execC06Ref(c, nil, true)
 			ctx.Eval()
